@@ -123,6 +123,13 @@ func history(r *ev.Run, c *ev.Case, hi int, slowCA ...time.Duration) {
 	pool := gen.Pool()
 	user := pool[rng.Intn(len(pool))]
 	kd.Write("alice.pub", gsrig.AuthorizedLine(user.Pub, ""))
+	// one requester may hold several accounts (a personal and a role account) with the same registered key: every
+	// third history alternates between two login names on the one agent
+	kd.Write("svc-deploy.pub", gsrig.AuthorizedLine(user.Pub, ""))
+	logins := []string{"alice"}
+	if hi%3 == 1 {
+		logins = []string{"alice", "svc-deploy"}
+	}
 	validity := []uint64{1, 59, 3600, 43200, 30 * 86400, 90 * 86400, 365 * 86400, 3650 * 86400}[rng.Intn(8)]
 	if lapse {
 		validity = uint64(1 + hi/2%2)
@@ -235,7 +242,7 @@ func history(r *ev.Run, c *ev.Case, hi int, slowCA ...time.Duration) {
 			useSigner = &nestSigner{inner: signer, hook: func() { time.Sleep(slowCA[0]) }}
 			r.Count("runs whose CA took several seconds to answer", 1)
 		}
-		pspec := gsrig.ParamSpec{LogName: "alice", ReqUser: "u", ReqHost: "h", ClientIP: "10.1.1.1", TransID: gen.Ident(rng, 10), Policy: "NONS"}
+		pspec := gsrig.ParamSpec{LogName: logins[run%len(logins)], ReqUser: "u", ReqHost: "h", ClientIP: "10.1.1.1", TransID: gen.Ident(rng, 10), Policy: "NONS"}
 		if outcome == "unconfigured-ca-algorithm" {
 			pspec.CAAlgo = 3 // only "default" (0) has a key identifier in this configuration
 		}
